@@ -2,6 +2,7 @@ package checks
 
 import (
 	"bytes"
+	"context"
 	"encoding/json"
 	"flag"
 	"fmt"
@@ -13,10 +14,12 @@ import (
 	"regexp"
 	"sort"
 	"strings"
+	"time"
 
 	"github.com/Syuparn/pangaea/object"
 	"github.com/Syuparn/pangaea/runscript"
 	play "github.com/Syuparn/pangaea/verifplay"
+	seam "github.com/Syuparn/pangaea/verifseam"
 
 	"verifsim/harness"
 	"verifsim/tape"
@@ -181,6 +184,7 @@ func (p *playFE) exec(src, stdin string, faultAt int) probeResult {
 			}
 		}()
 		src = calleePrelude(faultAt) + src
+		defer bounded()()
 		v, errmsg := p.ex.Run(strings.NewReader(src), strings.NewReader(stdin), &out)
 		res.Err = errmsg
 		if v != nil {
@@ -189,6 +193,14 @@ func (p *playFE) exec(src, stdin string, faultAt int) probeResult {
 	}()
 	res.Stdout = out.String()
 	return res
+}
+
+// bounded gives the front-end call that follows a step budget (entries of evaluator.Eval),
+// so that a program that no longer terminates ends as the host panic "fuel exhausted"
+// instead of hanging the history; the returned func switches the counter off again.
+func bounded() func() {
+	seam.SetFuel(4 * harness.DefaultFuel)
+	return func() { seam.SetFuel(0) }
 }
 
 // calleePrelude defines the history programs' failing callee in the language itself
@@ -237,6 +249,7 @@ func (runSourceFE) exec(src, stdin string, faultAt int) probeResult {
 				res.Err = fmt.Sprint("HOST PANIC ", r)
 			}
 		}()
+		defer bounded()()
 		res.Exit = runscript.RunSource(calleePrelude(faultAt)+src, "prog.pangaea", strings.NewReader(stdin), &out)
 	})
 	res.Stdout = out.String()
@@ -388,7 +401,7 @@ func genHTTPHistory(t *tape.Tape, uniq string) httpReq {
 
 func serveCaptured(h http.Handler, rq httpReq) probeResult {
 	var r probeResult
-	r.Stderr = captureStderr(func() { r.Stdout = serveOnce(h, rq) })
+	r.Stderr = captureStderr(func() { defer bounded()(); r.Stdout = serveOnce(h, rq) })
 	return r
 }
 
@@ -621,6 +634,7 @@ func runTestDir(dir string) probeResult {
 				res.Err = fmt.Sprint("HOST PANIC ", r)
 			}
 		}()
+		defer bounded()()
 		res.Exit = runscript.RunTest(".", strings.NewReader(""), &out)
 	})
 	res.Stdout = out.String()
@@ -644,7 +658,9 @@ func (c *c19Check) Run(seed, run uint64, rec []uint32, st Stats, only *Viol) []V
 			args = append(args, "-tape", f.Name())
 		}
 	}
-	cmd := exec.Command(self, args...)
+	ctx, cancel := context.WithTimeout(context.Background(), 3*time.Minute)
+	defer cancel()
+	cmd := exec.CommandContext(ctx, self, args...)
 	var so, se bytes.Buffer
 	cmd.Stdout, cmd.Stderr = &so, &se
 	if err := cmd.Run(); err != nil {
